@@ -585,6 +585,12 @@ func runReplayerWorld(rc *RunCtx) (out *Outcome) {
 	if !w.finite {
 		maxOps = 60
 	}
+	if ch.Chance(1, 25, "very long history") {
+		// hundreds of operations: multi-digit automatic IDs, buffers that grow to dozens of entries and
+		// shrink again, state that goes wrong silently and shows many operations later
+		num, den, maxOps = 255, 256, 400
+		o.probe("history of up to 400 operations")
+	}
 	// swarm: per-run operation mix (balanced, put-heavy so that the buffer grows, collection-heavy)
 	profiles := [][]int{{10, 6, 2, 5, 2, 1}, {30, 4, 2, 3, 3, 1}, {10, 6, 8, 8, 4, 2}}
 	profile := ch.Weighted([]int{3, 2, 2}, "op profile")
